@@ -28,12 +28,12 @@ ASSUMPTIONS = ['existing positions are finite and pairwise distinct (the invaria
                'requests that tie with each other are placed in batch order (what BulkAddRecord relies on to keep rows in the order given)',
                'in situ: positions are only written through user actions (ApplyDocActions of hand-made doc actions is not sanitised) and '
                'undo is in order (an out-of-order undo restores an old position verbatim)']
-REQUIRED = {'direct_calls': {'quick': 30000, 'thorough': 600000},
+REQUIRED = {'direct_calls': {'quick': 25000, 'thorough': 500000},
             'direct_calls_with_adjustments': {'quick': 3000, 'thorough': 60000},
             'stateful_steps': {'quick': 4000, 'thorough': 80000},
             'contract.C20.prepare_inserts': {'quick': 2000, 'thorough': 30000},
             'insitu_position_cells_checked': {'quick': 100000, 'thorough': 2000000},
-            'insitu_order_checks': {'quick': 1000, 'thorough': 12000}}
+            'insitu_order_checks': {'quick': 800, 'thorough': 10000}}
 SHARD_TIMEOUT = {'quick': 240, 'thorough': 2400}
 
 MIN_NORMAL = 2.2250738585072014e-308
